@@ -44,6 +44,8 @@ func TestSweep(t *testing.T) {
 		Oracle.One(t, env, rec, "sweep", &Case{S: e.S.Name, D: e.D.Name, Xs: vals(Bounds(e)), Fix: 3}) // buffers recycled through a pool
 		Oracle.One(t, env, rec, "sweep", &Case{S: e.S.Name, D: e.D.Name, Xs: vals(Bounds(e)), Fix: 4}) // buffers grown out of an empty window by Append
 		Oracle.One(t, env, rec, "sweep", &Case{S: e.S.Name, D: e.D.Name, Xs: vals(Bounds(e)), Fix: 5}) // the source was the destination of a conversion before, converted through a window cut then
+		Oracle.One(t, env, rec, "sweep", &Case{S: e.S.Name, D: e.D.Name, Xs: vals(Bounds(e)), Fix: 6}) // source two frames longer than the destination
+		Oracle.One(t, env, rec, "sweep", &Case{S: e.S.Name, D: e.D.Name, Xs: vals(Bounds(e)), Fix: 7}) // destination two frames longer than the source
 		if e.S.Bits == 64 {
 			// float32-exact inputs at every quantisation step of 8-bit (and a stride of 16-bit) destinations, each with its float64 neighbours
 			d := e.D.Bits
